@@ -10,7 +10,32 @@
 #include <stdarg.h>
 #include <stddef.h>
 #include <stdio.h>
-#ifndef VERIF_NATIVE
+#if !defined(VERIF_NATIVE) && defined(VERIF_SNPRINTF_ABSTRACT)
+/* ABSTRACT variant (over-approximation, for memory-safety units): any content, any return value a
+ * conforming snprintf can produce for a format whose complete output has between VSN_MIN and
+ * VSN_MAX characters ("%llu-%llu," : 4..42), or -1; never writes more than size bytes. */
+#ifndef VSN_MIN
+#define VSN_MIN 4
+#define VSN_MAX 42
+#endif
+int nondet_snprintf_ret(void); char nondet_snprintf_char(void); size_t nondet_snprintf_pos(void);
+int snprintf(char *str, size_t size, const char *fmt, ...) {
+    int r = nondet_snprintf_ret();
+    __CPROVER_assume(r == -1 || (r >= VSN_MIN && r <= VSN_MAX));
+    if(r < 0) return r;
+    if(size > 0) {
+        /* bytes written: min(r, size-1) characters and the terminating NUL; the callers under
+         * analysis never read the characters back, so one solver-chosen position carrying an
+         * arbitrary character stands for "any content" (ghost-index idiom) */
+        size_t w = (size_t)r < size ? (size_t)r + 1 : size;
+        __CPROVER_assert(__CPROVER_w_ok(str, w), "snprintf: destination writable for every byte it may write");
+        size_t g = nondet_snprintf_pos();
+        if(g < w - 1) str[g] = nondet_snprintf_char();
+        str[w - 1] = '\0';
+    }
+    return r;
+}
+#elif !defined(VERIF_NATIVE)
 int nondet_snprintf_fail(void);
 #define VSN_PUT(ch) do { if(size > 0 && n + 1 < size) str[n] = (ch); n++; } while(0)
 int snprintf(char *str, size_t size, const char *fmt, ...) {
@@ -24,9 +49,18 @@ int snprintf(char *str, size_t size, const char *fmt, ...) {
         if(fmt[i] != '%') { VSN_PUT(fmt[i]); continue; }
         if(fmt[i + 1] == 'l' && fmt[i + 2] == 'l' && fmt[i + 3] == 'u') {
             unsigned long long v = va_arg(ap, unsigned long long);
+#ifdef VERIF_SNPRINTF_SMALL
+            /* cheap variant for units whose values are assumed < 1000 (64-bit division is costly) */
+            __CPROVER_assert(v < 1000, "snprintf model: %llu value within the model's range");
+            unsigned short w = (unsigned short)v;
+            if(w >= 100) VSN_PUT((char)('0' + w / 100));
+            if(w >= 10) VSN_PUT((char)('0' + (w / 10) % 10));
+            VSN_PUT((char)('0' + w % 10));
+#else
             char d[20]; int nd = 0;
             do { d[nd++] = (char)('0' + (int)(v % 10)); v /= 10; } while(v != 0 && nd < 20);
             while(nd > 0) { nd--; VSN_PUT(d[nd]); }
+#endif
             i += 3;
         } else if(fmt[i + 1] == '0' && fmt[i + 2] == '2' && fmt[i + 3] == 'x') {
             /* goto-cc 6.11 passes a variadic (unsigned char) argument as a 1-byte object (no default
